@@ -365,7 +365,7 @@ func genUDP(r *hysim.Rand, tier string) *hysim.Script {
 	if tier == "thorough" {
 		nops = r.Pick(1, 2, 4, 8, 16, 40)
 	}
-	family := r.Intn(4) // 0 real, 1 crafted, 2 junk, 3 mixed
+	family := r.Pick(0, 0, 1, 1, 2, 2, 2, 3) // 0 real, 1 crafted, 2 junk, 3 mixed
 	for i := 0; i < nops; i++ {
 		ah, ap := addr()
 		seed := int64(r.Uint64() >> 1)
@@ -415,14 +415,50 @@ func genUDP(r *hysim.Rand, tier string) *hysim.Script {
 				// post-processing: 0 none, 1 truncate to A[12], 2 flip bit A[12]
 				int64(r.Pick(0, 0, 0, 0, 1, 2)), int64(r.Range(0, 1400*8)), ah, ap}})
 		default:
-			if r.Chance(1, 3) {
+			if r.Chance(1, 4) {
 				sc.Ops = append(sc.Ops, hysim.Op{K: "junk", A: []int64{seed, r.Pick64(0, 1, 2, 5, 6, 7, 20, 24, 64, 1200, 1500), ah, ap}})
+			} else if r.Chance(1, 2) {
+				// small datagram, first byte without the long-header bit, everything else plausible:
+				// header-protection sample would lie beyond the datagram
+				sc.Ops = append(sc.Ops, hysim.Op{K: "look", A: []int64{
+					int64(r.Range(0x40, 0x7f)), int64(r.Pick(0, 0, 1)), int64(r.Pick(0, 0, 1, 4, 8)), int64(r.Pick(0, 0, 1, 8)),
+					int64(r.Pick(0, 0, 0, 1, 5)), int64(r.Range(1, 21)), int64(r.Range(0, 6) - r.Pick(0, 0, 0, 1)), seed, ah, ap}})
 			} else {
 				first := r.Pick64(0x40, 0x41, 0x43, 0x4f, 0x50, 0x5c, 0x6a, 0x7f, 0x00, 0x3f, 0x80, 0xc0, 0xc3, 0xd0, 0xe0, 0xf0, 0xff, int64(r.Intn(256)))
 				sc.Ops = append(sc.Ops, hysim.Op{K: "look", A: []int64{
 					first, int64(r.Pick(0, 0, 0, 1, 1, 2, 3)), int64(r.Pick(0, 0, 1, 8, 20, 21, 255)), int64(r.Pick(0, 0, 1, 8, 20, 255)),
 					int64(r.Pick(0, 0, 0, 1, 63, 64, 500)), r.Pick64(0, 1, 2, 3, 5, 15, 16, 17, 19, 20, 21, 24, 100, 1200, 16383, 16384, 1<<30, 1<<39),
 					r.Pick64(-1000, -17, -1, 0, 0, 0, 0, 1, 3, 16, 20, 64), seed, ah, ap}})
+			}
+		}
+	}
+	return sc
+}
+
+// genUDPSafe: the same workload with safe=1 (see execUDP): whole packets only for excluded
+// targets, everything else cut / declared so that it is rejected before unprotecting.
+func genUDPSafe(r *hysim.Rand, tier string) *hysim.Script {
+	sc := genUDP(r, tier)
+	sc.Cfg["safe"] = 1
+	if r.Chance(1, 4) {
+		// make excluded targets frequent, so that whole packets are exercised against the filters
+		sc.Cfg["pf"] = int64(r.Pick(2, 3, 5, 7))
+		return sc
+	}
+	for i, op := range sc.Ops {
+		switch op.K {
+		case "full", "flip", "ext":
+			if r.Chance(2, 3) {
+				l := int64(r.Range(0, 1400))
+				if r.Chance(1, 3) {
+					l = -int64(r.Range(1, 30))
+				}
+				n := len(op.A)
+				sc.Ops[i] = hysim.Op{K: "trunc", A: []int64{op.A[0], l, op.A[n-2], op.A[n-1]}}
+			}
+		case "craft":
+			if r.Chance(2, 3) {
+				op.A[11], op.A[12] = 1, int64(r.Range(0, 1300))
 			}
 		}
 	}
@@ -437,6 +473,7 @@ type udpCase struct {
 	complete bool   // the datagram still holds the whole protected packet
 	desc     string
 	tgt      reqTarget
+	reaches  bool // a correct parser gets as far as removing packet protection on this input
 }
 
 func execUDP(x *hysim.Run) {
@@ -446,6 +483,7 @@ func execUDP(x *hysim.Run) {
 	_, verNum := quicVersionOf(verSel)
 	flavour := sc.Get("flavour", 1)
 	rewrite := sc.Get("rewrite", 0) == 1
+	safe := sc.Get("safe", 0) == 1
 	expSNI := sni
 	if net.ParseIP(sni) != nil {
 		expSNI = "" // crypto/tls sends no server_name for an IP literal
@@ -491,7 +529,7 @@ func execUDP(x *hysim.Run) {
 		switch op.K {
 		case "full":
 			p, _ := pick(op.Arg(0))
-			add(udpCase{data: p, expHost: expSNI, complete: true, desc: fmt.Sprintf("quic-go Initial v%#x sni=%q datagram %d", verNum, sni, op.Arg(0))}, op.Arg(1), op.Arg(2))
+			add(udpCase{data: p, expHost: expSNI, complete: true, reaches: true, desc: fmt.Sprintf("quic-go Initial v%#x sni=%q datagram %d", verNum, sni, op.Arg(0))}, op.Arg(1), op.Arg(2))
 		case "trunc":
 			p, e := pick(op.Arg(0))
 			l := int(op.Arg(1))
@@ -499,13 +537,19 @@ func execUDP(x *hysim.Run) {
 				l = e + l
 			}
 			l = clampI(l, 0, len(p))
-			add(udpCase{data: p[:l], expHost: expSNI, complete: l >= e, desc: fmt.Sprintf("quic-go Initial v%#x sni=%q truncated to %d of %d (packet ends at %d)", verNum, sni, l, len(p), e)}, op.Arg(2), op.Arg(3))
+			if safe && l >= e {
+				l = e - 1
+			}
+			add(udpCase{data: p[:l], expHost: expSNI, complete: l >= e, reaches: l >= e, desc: fmt.Sprintf("quic-go Initial v%#x sni=%q truncated to %d of %d (packet ends at %d)", verNum, sni, l, len(p), e)}, op.Arg(2), op.Arg(3))
 		case "sweep":
 			p, e := pick(op.Arg(0))
 			step := clampI(int(op.Arg(2)), 1, 1000)
 			cnt := clampI(int(op.Arg(3)), 1, 1500)
 			for k, l := 0, clampI(int(op.Arg(1)), 0, len(p)); k < cnt && l <= len(p); k, l = k+1, l+step {
-				add(udpCase{data: p[:l], expHost: expSNI, complete: l >= e, desc: fmt.Sprintf("quic-go Initial v%#x sni=%q truncated to %d of %d (packet ends at %d)", verNum, sni, l, len(p), e)}, op.Arg(4), op.Arg(5))
+				if safe && l >= e {
+					break
+				}
+				add(udpCase{data: p[:l], expHost: expSNI, complete: l >= e, reaches: l >= e, desc: fmt.Sprintf("quic-go Initial v%#x sni=%q truncated to %d of %d (packet ends at %d)", verNum, sni, l, len(p), e)}, op.Arg(4), op.Arg(5))
 			}
 		case "flip":
 			p, _ := pick(op.Arg(0))
@@ -519,19 +563,22 @@ func execUDP(x *hysim.Run) {
 			// a flip that still authenticates can only sit outside the protected packet, so the
 			// name is unchanged; anything else must leave the destination alone. Both are covered
 			// by "rewritten only to the name that is there".
-			add(udpCase{data: q, expHost: expSNI, complete: true, desc: fmt.Sprintf("quic-go Initial v%#x sni=%q with bit %d of byte %d flipped", verNum, sni, bit%8, bit/8)}, op.Arg(2), op.Arg(3))
+			add(udpCase{data: q, expHost: expSNI, complete: true, reaches: true, desc: fmt.Sprintf("quic-go Initial v%#x sni=%q with bit %d of byte %d flipped", verNum, sni, bit%8, bit/8)}, op.Arg(2), op.Arg(3))
 		case "ext":
 			p, _ := pick(op.Arg(0))
 			extra := hysim.NewRand(uint64(op.Arg(2)), 0xe47).Bytes(clampI(int(op.Arg(1)), 0, 1500))
-			add(udpCase{data: append(clip(p), extra...), expHost: expSNI, complete: true, desc: fmt.Sprintf("quic-go Initial v%#x sni=%q followed by %d random bytes", verNum, sni, len(extra))}, op.Arg(3), op.Arg(4))
+			add(udpCase{data: append(clip(p), extra...), expHost: expSNI, complete: true, reaches: true, desc: fmt.Sprintf("quic-go Initial v%#x sni=%q followed by %d random bytes", verNum, sni, len(extra))}, op.Arg(3), op.Arg(4))
 		case "craft":
 			p, whole, desc := craftInitial(op, sni)
-			c := udpCase{data: p, expHost: expSNI, complete: true, desc: desc + fmt.Sprintf(" sni=%q", sni)}
+			c := udpCase{data: p, expHost: expSNI, complete: true, reaches: true, desc: desc + fmt.Sprintf(" sni=%q", sni)}
 			_ = whole // a sniffer may or may not recover the name from a partial hello; never another name
 			switch op.Arg(11) {
 			case 1:
 				l := clampI(int(op.Arg(12)), 0, len(p))
-				c.data, c.complete = p[:l], l >= len(p)
+				if safe && l >= len(p) {
+					l = len(p) - 1
+				}
+				c.data, c.complete, c.reaches = p[:l], l >= len(p), l >= len(p)
 				c.desc += fmt.Sprintf(", truncated to %d of %d", l, len(p))
 			case 2:
 				bit := int(op.Arg(12))
@@ -547,8 +594,13 @@ func execUDP(x *hysim.Run) {
 			n := clampI(int(op.Arg(1)), 0, 2000)
 			add(udpCase{data: hysim.NewRand(uint64(op.Arg(0)), 0x7c).Bytes(n), desc: fmt.Sprintf("%d random bytes", n)}, op.Arg(2), op.Arg(3))
 		case "look":
+			if safe && op.Arg(6) >= 0 && op.Arg(1)&3 < 2 {
+				// declared length must exceed what is there
+				op.A = append([]int64{}, op.A...)
+				op.A[6] = -1 - op.A[6]
+			}
 			b, desc := lookalike(op)
-			add(udpCase{data: b, desc: desc}, op.Arg(8), op.Arg(9))
+			add(udpCase{data: b, desc: desc, reaches: !safe}, op.Arg(8), op.Arg(9))
 			if len(b) > 0 && b[0]&0x80 == 0 && b[0]&0x40 != 0 {
 				x.Probe("short-header-lookalike")
 			}
@@ -559,6 +611,10 @@ func execUDP(x *hysim.Run) {
 		filter := portFilter(sc.Get("pf", 0), c.tgt.port)
 		sn := &Sniffer{RewriteDomain: rewrite, UDPPorts: filter, TCPPorts: portFilter(5, 0)}
 		eligible := eligibleByRule(c.tgt, rewrite, filter)
+		if safe && eligible && c.reaches {
+			x.Probe("safe-part-skipped-whole-packet")
+			continue
+		}
 		data := clip(c.data)
 		saved := clip(c.data)
 		reqAddr := c.tgt.addr
